@@ -4,7 +4,7 @@ from ..rules import r14, r1, r3, r5, r8, r12, r12b
 
 
 def run(ctx: Ctx) -> list[Ob]:
-    return r5.r5g(ctx) + r3.r3l(ctx) + r3.r3m(ctx) + r3.r3c(ctx) + r3.r3d(ctx) + r3.r3e(ctx) + r3.r3f(ctx) + r12.r12a_outputs(ctx) + r8.run_guards(ctx, r8.GUARDS_MATCHERS) + r3.r3g(ctx) + r1.r1d_sweep(ctx) + r12b.layer_rewrites(ctx) + r12b.param_rewrites(ctx) + r12b.shatter_rewrites(ctx) + r3.r3h(ctx) + r3.r3i(ctx) + r3.r3j(ctx) + r14.view_of_noncontiguous(ctx) + r14.zip_of_orderings(ctx) + r14.selection_bookkeeping(ctx) + r12b.pattern_entry_subclasses(ctx)
+    return r14.membership_in_mapping(ctx) + r5.r5g(ctx) + r3.r3l(ctx) + r3.r3m(ctx) + r3.r3c(ctx) + r3.r3d(ctx) + r3.r3e(ctx) + r3.r3f(ctx) + r12.r12a_outputs(ctx) + r8.run_guards(ctx, r8.GUARDS_MATCHERS) + r3.r3g(ctx) + r1.r1d_sweep(ctx) + r12b.layer_rewrites(ctx) + r12b.param_rewrites(ctx) + r12b.shatter_rewrites(ctx) + r3.r3h(ctx) + r3.r3i(ctx) + r3.r3j(ctx) + r14.view_of_noncontiguous(ctx) + r14.zip_of_orderings(ctx) + r14.selection_bookkeeping(ctx) + r12b.pattern_entry_subclasses(ctx)
 
 
 SPEC = PropSpec(
@@ -29,6 +29,7 @@ SPEC = PropSpec(
         " R14l: the layer-wise orderings of several parameter graphs are never merged with zip (it truncates to the shallowest graph: fold groups whose parameter graphs differ in depth could not be folded). R14m: the 'already selected' test of the optimiser's match prioritisation consults the result mapping itself or a set updated next to every store into it -- otherwise two overlapping matches both survive and both rewrites are applied."
         " R3l: the offsets by which the address-book builders address fold j of input module k (offset[k] + j) are the exclusive prefix sums of the fold counts -- an accumulate / cumsum over num_folds with a leading 0, or a running variable updated additively; a running offset that is overwritten instead of accumulated is right for one or two input modules and reads another operand's folds from the third on. R3m: no order-changing operation (sorted, reversed, set, .sort()) is applied to a fold index in the modules that build and use address books: entry i of a fold index describes fold i, and the consumers read folds by position."
         ' R5g: every parameter operator whose forward contracts two or more parameter tensors with a dtype-strict operation (matmul, einsum, tensordot, @) casts them to a common dtype first (promote_types / result_type / .to): the parameter graph may mix real and complex tensors (a real permutation matrix and a conjugated complex weight), which the un-optimized graph evaluates with promoting operations, so a strict contraction introduced by an optimizer rewrite would make the circuit raise under optimize=True only.'
+        ' R14t: a membership test `x in mapping` whose left side has, by the annotations of the function, the value type of the annotated dict and not its key type is always False (a match looked up among the modules): the selection bookkeeping it guards is skipped.'
     ),
     not_decided=(
         "that each optimisation rewrite is an algebraic identity (R12b rewrite carry not built); the other match guards (class, "
